@@ -1,8 +1,8 @@
 (* C13 — Wire codec: canonical frames, exact parser, lossless round trip, total decoders. *)
-From Coq Require Import ZArith List Bool.
+From Coq Require Import ZArith List Bool Reals.
 Import ListNotations.
 Require Import GV.Gen.Consts GV.Model.Hcu GV.Model.Packets
-  GV.Proofs.C13_total GV.Proofs.C13_header GV.Proofs.C13_roundtrip GV.Proofs.C13_size GV.Model.Utf8 GV.Proofs.Utf8_proof.
+  GV.Proofs.C13_total GV.Proofs.C13_header GV.Proofs.C13_roundtrip GV.Proofs.C13_size GV.Model.Utf8 GV.Proofs.Utf8_proof GV.Proofs.C13_pole.
 Local Open Scope Z_scope.
 
 Theorem C13_header_canonical : forall t n,
@@ -82,3 +82,22 @@ Theorem C13_time_abstraction : waits_protocol = (@nil Z) /\ waits_client = (@nil
 Proof. exact (conj w_protocol w_client). Qed.
 Check C13_time_abstraction : waits_protocol = (@nil Z) /\ waits_client = (@nil Z).
 Print Assumptions C13_time_abstraction.
+
+(* ---- orientations on the wire: what "an equal object (angles within float tolerance)" means where the angle triple
+   is not unique.  With R = Rz(yaw) Ry(pitch) Rx(roll) (the reference the harness judges decoded packets against), at a
+   pitch of a quarter turn the orientation depends on roll - yaw only (roll + yaw at minus a quarter turn), so there the
+   check compares decoded rotations; strictly inside the quarter turn equal orientations have equal angles (equal sines
+   and cosines), so there it compares the angle words.  The repaired Target encoder (cfaadcb, finding F14) sends
+   (roll -/+ yaw, +-pi/2, 0) at the pole: the same orientation by the first two theorems ---- *)
+Theorem C13_pole_up : forall r y : R, same_orientation (r, PI / 2, y)%R (r - y, PI / 2, 0)%R.
+Proof. exact pole_up. Qed.
+Print Assumptions C13_pole_up.
+Theorem C13_pole_down : forall r y : R, same_orientation (r, - (PI / 2), y)%R (r + y, - (PI / 2), 0)%R.
+Proof. exact pole_down. Qed.
+Print Assumptions C13_pole_down.
+Theorem C13_off_pole_determined : forall r p y r' p' y' : R,
+  (- (PI / 2) < p < PI / 2)%R -> (- (PI / 2) < p' < PI / 2)%R ->
+  same_orientation (r, p, y) (r', p', y') ->
+  sin p = sin p' /\ cos p = cos p' /\ sin r = sin r' /\ cos r = cos r' /\ sin y = sin y' /\ cos y = cos y'.
+Proof. exact off_pole_determined. Qed.
+Print Assumptions C13_off_pole_determined.
